@@ -349,6 +349,17 @@ impl Minimizer {
                         Action::Exit { probe_late: true } => {
                             alts.push(Action::Exit { probe_late: false });
                         }
+                        Action::Burst { op, k } => {
+                            alts.push(Action::Op(op.clone()));
+                            let mut j = 2u32;
+                            while j < *k {
+                                alts.push(Action::Burst { op: op.clone(), k: j });
+                                j = j.saturating_mul(2);
+                            }
+                            if let Some(simple) = simplest_of_kind(op) {
+                                alts.push(Action::Burst { op: simple, k: *k });
+                            }
+                        }
                         Action::Crowd { n, m } => {
                             let mut k = 1u16;
                             while k < *n {
